@@ -9,6 +9,13 @@ fn main() {
     let nh: u64 = a.get(2).and_then(|s| s.parse().ok()).unwrap_or(2);
     let steps: usize = a.get(3).and_then(|s| s.parse().ok()).unwrap_or(100);
     let heavy = a.get(4).map_or(false, |s| s == "1");
+    // panics the histories provoke on purpose stay quiet, any other panic is reported as usual
+    let default_hook = std::panic::take_hook();
+    std::panic::set_hook(Box::new(move |info| {
+        if !dvh::hist::EXPECT_PANIC.load(std::sync::atomic::Ordering::SeqCst) {
+            default_hook(info);
+        }
+    }));
     let mut total = dvh::hist::Stats::default();
     for h in 0..nh {
         let mut r = Rng::for_case(seed, "C17-sanitizer", h);
